@@ -1043,36 +1043,94 @@ def mon_c08(tr: Trace) -> list[Violation]:
             if dropped:
                 break
     # per lineage, counted from the TRACE (not from the counts the state carries): the lineage of a failure is the chain of
-    # invocations that produced its input event (each event -> the invocation that returned it -> that invocation's input,
-    # for a handler the input of the failure it handled); ctx.send_event starts a new lineage.  Counted per PATH: an event
-    # accepted by two steps gives two branches, each with its own budget.
+    # invocations that produced its input event (each event -> the invocation that returned it OR sent it with
+    # ctx.send_event -> that invocation's input, for a handler the input of the failure it handled); only events that come
+    # from outside the run (start event, external sends) start a lineage.  Counted per PATH: an event accepted by two steps,
+    # or an invocation that emits several events, gives branches with a budget each.
     if not spec.get("det_uids"):
         producer: dict = {}
+        via_send: set = set()
         for rec in tr.steps:
             if rec[0] == "exit" and rec[5].get("ret") and rec[5]["ret"][1] is not None:
                 producer[rec[5]["ret"][1]] = (rec[1], rec[2])
+            elif rec[0] == "sent" and "inv" in rec[5]:
+                producer[rec[5]["new_uid"]] = (rec[1], rec[5]["inv"])
+                via_send.add(rec[5]["new_uid"])
         # invocations that suspended in wait_for_event (before the repair their replay was a fresh EventAttempt: classifying fact)
         suspended = {(rec[1], rec[2]) for rec in tr.steps if rec[0] == "exit" and rec[5].get("status") == "raise:WaitingForEvent"}
 
-        def chain_of(u: Any) -> tuple[list, Any]:
+        def chain_of(u: Any) -> tuple[list, Any, bool]:
+            """producing invocations of event `u`, nearest first; the root event; whether an edge was a ctx.send_event"""
             ch: list = []
             seen: set = set()
+            sends = False
             while u in producer and u not in seen:
                 seen.add(u)
+                sends = sends or u in via_send
                 st, inp = producer[u]
                 ch.append((st, inp))
                 u = inp[2] if isinstance(inp, tuple) else inp
-            return ch, u
+            return ch, u, sends
 
+        def lineage_counts(u: Any) -> tuple[dict, bool]:
+            """handler entries along the path that produced event `u`, recomputed from the trace: what its recovery counts are to be"""
+            ch, _r, sends = chain_of(u)
+            cnt: dict = {}
+            for st, _inp in ch:
+                if st in maxrec:
+                    cnt[st] = cnt.get(st, 0) + 1
+            return cnt, sends
+
+        def nz(d: Any) -> dict:
+            return {k: v for k, v in dict(d or {}).items() if v}
+
+        # (a) an event a step emits with ctx.send_event stays on the invocation's lineage: the tick that carries it into the
+        # run has the entries counted so far (the invocation's own entry included when it is a handler)
+        put_of = {getattr(getattr(t, "event", None), "uid", None): t for (t, _k, origin) in tr.puts
+                  if origin == "internal" and isinstance(t, T.TickAddEvent)}
+        for rec in tr.steps:
+            if rec[0] == "sent" and "inv" in rec[5] and rec[5]["new_uid"] in put_of:
+                want, _s = lineage_counts(rec[5]["new_uid"])
+                got = nz(put_of[rec[5]["new_uid"]].recovery_counts)
+                if got != want:
+                    who = "handler" if rec[1] in maxrec else "step"
+                    sig = ("C08/send_event_dropped_lineage_counts" if all(got.get(k, 0) <= v for k, v in want.items()) and set(got) <= set(want)
+                           else "C08/send_event_wrong_lineage_counts")
+                    out.append(Violation(f"{sig}:from_{who}:{'first_attempt' if rec[3] == 0 else 'retry'}",
+                                         f"{who} {rec[1]} (retry_number {rec[3]}) sent event uid={rec[5]['new_uid']} with ctx.send_event; its lineage has "
+                                         f"entered handlers {want} so far, the TickAddEvent carries recovery counts {got}", _replay(tr)))
+                    break  # one per trace; the consequences (rules b, c) are reported too
+        # (b) every exhausted failure is judged with the count of its lineage: the state's count for the owner is the number of
+        # entries on the path
+        for c in _runner_calls(tr):
+            if not isinstance(c.tick, T.TickStepResult) or c.error is not None or not any(isinstance(r, R.StepWorkerFailed) for r in c.tick.result):
+                continue
+            if any(isinstance(x, C.CommandQueueEvent) and x.attempts for x in c.cmds):
+                continue
+            u = getattr(c.tick.event, "uid", None)
+            owner = expected_owner(spec, c.tick.step_name)
+            ex = next((ip for ip in c.before.workers[c.tick.step_name].in_progress if ip.worker_id == c.tick.worker_id), None)
+            if u is None or owner is None or ex is None or isinstance(c.tick.event, StopEvent):
+                continue
+            want, sends = lineage_counts(u)
+            if ex.recovery_counts.get(owner, 0) != want.get(owner, 0):
+                routed = any(isinstance(x, C.CommandQueueEvent) and type(x.event).__name__ == "StepFailedEvent" for x in c.cmds)
+                out.append(Violation("C08/failure_judged_with_wrong_lineage_count" + (":lineage_continued_by_send_event" if sends else "") +
+                                     (":routed_beyond_budget" if routed and want.get(owner, 0) >= maxrec[owner] else ""),
+                                     f"exhausted failure of {c.tick.step_name} (event uid={u}): handler {owner} (max_recoveries={maxrec[owner]}) was entered "
+                                     f"{want.get(owner, 0)} times on this lineage, the invocation carries count {ex.recovery_counts.get(owner, 0)}; "
+                                     f"routed to the handler: {routed}", _replay(tr)))
+                break
+        # (c) entries of a handler per path
         for rec in tr.steps:
             if rec[0] == "enter" and rec[1] in maxrec and isinstance(rec[2], tuple) and rec[3] == 0:
                 h, fstep, fuid = rec[1], rec[2][1], rec[2][2]
-                ch, r = chain_of(fuid)
+                ch, r, sends = chain_of(fuid)
                 n = 1 + sum(1 for st, _inp in ch if st == h)
                 if n > maxrec[h]:
                     # ... the failing invocations themselves and those whose failures the handlers on the chain handled
                     waited = (fstep, fuid) in suspended or any(x in suspended or (isinstance(x[1], tuple) and (x[1][1], x[1][2]) in suspended) for x in ch)
-                    sig = "C08/handler_entered_beyond_budget" + (":lineage_suspended_in_wait" if waited else "")
+                    sig = "C08/handler_entered_beyond_budget" + (":lineage_suspended_in_wait" if waited else "") + (":lineage_continued_by_send_event" if sends else "")
                     out.append(Violation(sig, f"handler {h} (max_recoveries={maxrec[h]}) was entered {n} times for the lineage of event {r}", _replay(tr)))
                     return out
     # per lineage: recovery counts never exceed the budget anywhere in the state
